@@ -17,7 +17,8 @@ pub fn key_spec() -> impl Strategy<Value = KeySpec> {
         60 => key_lit_small().prop_map(KeySpec::Lit),
         25 => (any::<u16>(), 0u8..6).prop_map(|(f, h)| KeySpec::Der(f, h)),
         10 => (any::<u16>(), any::<bool>()).prop_map(|(f, z)| KeySpec::FfPair(f, z)),
-        5 => vec(any::<u8>(), 5..64).prop_map(KeySpec::Lit),
+        4 => vec(any::<u8>(), 5..64).prop_map(KeySpec::Lit),
+        1 => vec(any::<u8>(), 64..300).prop_map(KeySpec::Lit), // record ids longer than 127 and 255 bytes
     ]
 }
 
